@@ -256,6 +256,13 @@ class IntroducerClient(service.Service, Referenceable):
                          parent=lp, level=log.WEIRD, umid="ZAU15Q")
                 # process other announcements that arrived with the bad one
                 continue
+            except Exception:
+                # an unsigned, unknown-key-format or otherwise malformed
+                # announcement must not keep us from processing the others
+                # that arrived in the same batch
+                self.log("malformed inbound announcement: %s" % (ann_t,),
+                         parent=lp, level=log.WEIRD, umid="gBPmDw")
+                continue
 
             self._process_announcement(ann, key_s)
 
